@@ -936,6 +936,30 @@ pub(crate) fn derive_struct_diff_struct(struct_: &Struct) -> TokenStream {
         ret
     };
 
+    // where-clause items over something other than a bare parameter (`T::Item: Clone`, `Vec<T>: Trait`) that mention no
+    // parameter the diff enums leave out: the conversion from the borrowed to the owned diff clones field values, so it
+    // needs what the struct itself asks of their types
+    let used_where_items: Vec<String> = {
+        let is_word = |c: char| c.is_alphanumeric() || c == '_';
+        let declared: Vec<String> = struct_
+            .generics
+            .iter()
+            .filter(|gen| !matches!(gen, Generic::WhereBounded { .. }))
+            .map(|gen| gen.full())
+            .collect();
+        let used: Vec<String> = used_generics.iter().map(|gen| gen.full()).collect();
+        struct_
+            .generics
+            .iter()
+            .filter(|gen| matches!(gen, Generic::WhereBounded { .. }))
+            .map(|gen| Generic::full_with_const(gen, &[], &[], true))
+            .filter(|item| {
+                item.split(|c: char| !is_word(c))
+                    .all(|word| !declared.iter().any(|d| d == word) || used.iter().any(|u| u == word))
+            })
+            .collect()
+    };
+
     #[inline]
     fn get_used_generic_bounds() -> &'static [&'static str] {
         BOUNDS
@@ -1175,6 +1199,7 @@ pub(crate) fn derive_struct_diff_struct(struct_: &Struct) -> TokenStream {
                 ))
                 .filter(|g| Generic::has_where_bounds(g, true, true))
                 .map(|gen| Generic::full_with_const(gen, get_used_generic_bounds(), &["\'__diff_target"], true))
+                .chain(used_where_items.iter().cloned())
                 .collect::<Vec<_>>()
                 .join(",\n")
         ),
